@@ -32,9 +32,27 @@ Print Assumptions C01_lifecycles_histories.
 (* ... and the state the correspondence check evaluates and compares with the implementation is such a
    history (binary64 time), so the theorem covers every compared run. *)
 Theorem C01_correspondence_runs_are_histories :
-  forall c : case, run_case c = run_hist cycles_budget fuel_budget (c_async c) (c_prog c) (case_hist c).
+  forall c : case, c_manual c = None ->
+    run_case c = run_hist cycles_budget fuel_budget (c_async c) (c_prog c) (case_hist c).
 Proof. exact run_case_hist. Qed.
 Print Assumptions C01_correspondence_runs_are_histories.
+
+(* The manual API — doist.enter(), any number of doist.recur() calls, doist.exit(), with the application's
+   try/finally exit when one of them raises — keeps the same invariant ... *)
+Theorem C01_lifecycles_manual :
+  forall (T : Type) (TT : Time T) (n fuel : nat) (p : prog T) (j : id),
+    life_ok (get_gen (manual_run n fuel p) j) (events j (manual_run n fuel p)).
+Proof. intros. apply manual_run_lifecycles. Qed.
+Print Assumptions C01_lifecycles_manual.
+
+(* ... and the cases the correspondence drives by hand are such runs. *)
+Theorem C01_correspondence_manual_runs :
+  forall (c : case) (n : nat), c_manual c = Some n ->
+    run_case c = fold_left (rerun_step cycles_budget fuel_budget (p_tock (c_prog c)) (c_async c))
+                           (map (fun '(l, t) => RFresh l t (p_doers (c_prog c))) (c_fresh c))
+                           (manual_run n fuel_budget (c_prog c)).
+Proof. exact run_case_manual. Qed.
+Print Assumptions C01_correspondence_manual_runs.
 
 (* The same invariant holds after every single scheduler operation, from any
    state satisfying it (not only at the end of a run): one-step form for the
